@@ -1,7 +1,7 @@
 //! C12 harness, sixth table (Model/ScratchOps3.lean): prepare wrappers, compressed key wrappers, the convolution
 //! products, the CGGI blind rotation and its keys, circuit bootstrapping and its keys, the BDD key, `fhe_uint_prepare`,
 //! the BDD blind rotations / selection / retrieval, the two-word circuits, `FheUint` encrypt / decrypt, and the
-//! formulas of the poulpy-ckks products and composites (formula equality only; reference back ends).
+//! queries of the poulpy-ckks products and composites (reference back ends; the calls themselves run in scratch_cases7.rs).
 pub trait CkksTb3: poulpy_hal::layouts::Backend {
     fn tb(_m: &poulpy_hal::layouts::Module<Self>, _op: &str, _kv: &crate::cmd_scratch::Kv) -> Option<usize> {
         None
@@ -356,8 +356,11 @@ macro_rules! backend_cases6 {
                 let win = kv.0.get("win").and_then(|s| s.parse::<usize>().ok());
                 let module: Module<BE> = Module::<BE>::new(kv.g("n") as u64);
                 let tb: usize = tb_of(&module, op, kv)?;
-                if kv.g("tbonly") == 1 || op.starts_with("ckks_") {
+                if kv.g("tbonly") == 1 {
                     return Some(format!("tb={tb}"));
+                }
+                if op.starts_with("ckks_") {
+                    return Some(<BE as crate::scratch_cases7::CkksRun>::run(op, kv, tb).unwrap_or_else(|| format!("tb={tb}")));
                 }
                 let n = module.n();
                 let (size, rank, b2k) = (kv.g("size"), kv.g("rank"), kv.g("b2k").max(1));
